@@ -286,7 +286,7 @@ func genScenario(src *tape.Source) *scenario {
 			}
 		}
 		switch src.Intn(10, "c19.vextra") {
-		case 8:
+		case 6, 7, 8:
 			if sc.OutFile == "" { // a report file with timings in it has no reproducible "complete new content"
 				sc.Unstable = true
 				sc.Args = append(sc.Args, "--stats")
@@ -322,7 +322,7 @@ func genScenario(src *tape.Source) *scenario {
 		// what the half-written oracle is about.
 		sc.Files = sc.Files[:1]
 	}
-	if sc.Cmd == "validate" && input < 6 && src.Intn(6, "c19.missing") == 5 {
+	if (sc.Cmd == "validate" || sc.Cmd == "lint" && !sc.AutoFix) && input < 6 && src.Intn(6, "c19.missing") == 5 {
 		// an input that cannot be read at all: it fails, and reports must name it
 		sc.Files = append(sc.Files, fileSpec{Name: "missing.sql", Kind: "missing"})
 	}
@@ -330,7 +330,8 @@ func genScenario(src *tape.Source) *scenario {
 		s := "-- previous output that must not be half-overwritten\nSELECT 'old';\n"
 		sc.OutPre = &s
 	}
-	if input < 6 && (sc.Cmd == "validate" || sc.Cmd == "lint") && src.Intn(6, "c19.dirmode") == 5 {
+	hasMissing := len(sc.Files) > 0 && sc.Files[len(sc.Files)-1].Kind == "missing"
+	if dm := src.Intn(6, "c19.dirmode"); input < 6 && (sc.Cmd == "validate" || sc.Cmd == "lint") && (dm == 5 || hasMissing && dm >= 3) {
 		// the inputs are found by walking a directory: every matching file at any
 		// depth counts, nothing else does
 		sc.DirMode = true
@@ -813,6 +814,10 @@ func (p *P) verdictOracles(r *core.Result, sc *scenario, base *outcome) {
 	case "lint":
 		hasErr, hasWarn, fileErr := false, false, false
 		for _, f := range ins {
+			if f.Kind == "missing" {
+				fileErr = true // a path that cannot be read or walked fails the run
+				continue
+			}
 			e, w, fe := sc.lintSeverities(f.Content)
 			hasErr, hasWarn, fileErr = hasErr || e, hasWarn || w, fileErr || fe
 		}
@@ -882,6 +887,17 @@ func (p *P) verdictOracles(r *core.Result, sc *scenario, base *outcome) {
 			data = base.Files[sc.OutFile].Content
 		}
 		p.reportOracle(r, sc, data, rejected, ins)
+	}
+	if sc.Cmd == "validate" && sc.Format != "text" && !sc.UsesFiles && !anyBlank && ins[0].Kind != "stdin-over-10MiB" {
+		// stdin / inline input: the report embeds a temporary name, so only its
+		// well-formedness is judged - stdout (or the report file) is one JSON document
+		data := base.Stdout
+		if sc.OutFile != "" {
+			data = base.Files[sc.OutFile].Content
+		}
+		if !json.Valid([]byte(data)) {
+			r.Fail("report-well-formed", "validate "+sc.Format+" (stdin/inline)", fmt.Sprintf("%s: the %s report is not one well-formed JSON document: %q", desc, sc.Format, clip(data, 200)))
+		}
 	}
 	if sc.Cmd == "parse" && contains(sc.Args, "json") && base.Exit == 0 {
 		data := base.Stdout
